@@ -1,5 +1,6 @@
 import PsV.Props.C04
 import PsV.Proofs.ReadsEval
+import PsV.Proofs.ReadsGrad
 /-!
 # C05 — lookup and evaluation are memory-safe for every coordinate vector
 
@@ -13,7 +14,8 @@ import PsV.Proofs.ReadsEval
   `[0, ncoef)`: every index passed to `knots[·]` / `coefficients[·]` is inside owned storage
   (`allocate(nknots+2*order)+order`, `ncoef = strides[0]*naxes[0]`).  All loops of the model are
   structural recursions or fuel-bounded (margin loops: `nknots+1` steps), so they terminate.
-* `C05_gradient_rows_read_owned`: the same for the rows of the value-plus-gradient evaluation;
+* `C05_gradient_reads_owned`: the same for every lane of the value-plus-gradient evaluation
+  (`ndsplineeval_gradient`); `C05_gradient_rows_read_owned` is its per-dimension ingredient;
   `C05_gradient_refused`: more than `maxDim-1` dimensions are refused before any lane is touched.
 -/
 namespace PsV
@@ -61,6 +63,14 @@ theorem C05_gradient_rows_read_owned (t t' : Int → α) (nknots : Nat) (x : α)
     (h : AgreeOn t t' (-(n : Int)) ((nknots : Int) + n - 1)) :
     bsplineNonzero t nknots x c n = bsplineNonzero t' nknots x c n :=
   bsplineNonzero_congr t t' nknots x c n hc1 hc2 h
+
+/-- **The value-plus-gradient evaluation touches only owned memory**, every lane, every arithmetic. -/
+theorem C05_gradient_reads_owned (maxDim : Nat) (T T' : Table α) (xs : List α) (cs : List Nat)
+    (hne : T.dims ≠ []) (hshape : SameShape T.dims T'.dims) (hrm : RowMajor T.dims)
+    (hc : CentersInRange T.dims cs) (hx : T.dims.length = xs.length)
+    (hcoef : AgreeOn T.coef T'.coef 0 ((ncoef T.dims : Int) - 1)) :
+    ndsplineevalGradient maxDim T xs cs = ndsplineevalGradient maxDim T' xs cs :=
+  ndsplineevalGradient_congr maxDim T T' xs cs hne hshape hrm hc hx (sameShape_length _ _ hshape) hcoef
 
 /-- requests the SIMD layout cannot serve are refused (model of the `throw`) -/
 theorem C05_gradient_refused (maxDim : Nat) (T : Table α) (xs : List α) (cs : List Nat)
